@@ -17,11 +17,14 @@ Case lines
   5 delay kind [early]               (free) arrival `delay` real us after the graph started (early=1: after graph.start
                                      was ENTERED, i.e. while start hooks run; run_storage's reset is already behind)
   7 1                                request_stop() is called before run() is entered
+  8 1                                a second node in the push-source prefix: a push-kind "heartbeat" (script id 0) owning a
+                                     raw timer; op kind 8 arg = graph.schedule_node(self, now+arg), made only when it holds
+                                     no future wake-up.  It is evaluated when due and whenever a push is pending.
 Observation lines (first line 90 mode)
   hook mode (1): 9 i start hook of node i begins | 10 started | 11 loop body entered | 12 w clock reading in advance_realtime | 13 about to wait_for
      14 wait_for returned | 15 t advance_realtime returned t | 16 t graph.evaluate(t) entered | 17 push source evaluated
      18 i k timer node i runs (k-th) | 19 i kind arg eff n w1 w2 request, entered under eff (0: ignored), readings made
-     20 evaluate returned | 21 run returned | 22 w node read the clock
+     20 evaluate returned | 23 nx graph.next_scheduled_time() after the cycle (-1 none) | 21 run returned | 22 w node read the clock
      30 push: critical section | 31 push: notify_all done | 32 stop: critical section | 33 stop: notify_all done
      40 waiter woken only by its slice time-out although notified | 96..99 harness trouble
   free mode (0): 10 | 16 t w | 17 | 18 i k | 19 i kind arg eff 0 wb wa | 20 w | 21 w | 36 kind call begins | 35 kind call returned
@@ -224,6 +227,40 @@ def _gen_stop_in_start(rng, tier):
     return stop_in_start_case(v, n, rng.randint(1, n), rng.random() < 0.3, 2 if rng.random() < 0.8 else 1)
 
 
+def heartbeat_case(free, period, first, pushes, span, nnodes=0, slow=True):
+    """A push-kind heartbeat with a raw timer next to the push source; pushes land before / at / after its instants.
+    Every push evaluates the whole push-source prefix, i.e. also the heartbeat while it holds a future wake-up."""
+    if free:
+        lines = [[1, 1000000, 1000000 + span, 10000000, 0, 1000000, 0], [6, max(1, nnodes)], [8, 1]]
+    else:
+        lines = [[1, 1000, 1000 + span, 7, 1, 1000, 1 if slow else max(1, period // 3)], [6, max(1, nnodes)], [8, 1]]
+    lines.append([3, 0, -1, 8, first])
+    lines.append([3, 0, -2, 8, period])
+    for i in range(1, nnodes + 1):
+        lines.append([3, i, -1, 1, 0])
+        lines.append([3, i, -2, 1, period + 3 * i])
+    for p in pushes:
+        lines.append(([5, p, 1] if free else [4] + list(p)))
+    return lines
+
+
+def _gen_heartbeat(rng, tier):
+    if rng.random() < 0.25:
+        period = rng.choice([8000, 12000])
+        span = rng.choice([40000, 60000])
+        pushes = sorted(rng.randint(500, span - 2000) for _ in range(rng.randint(1, 4)))
+        return heartbeat_case(True, period, rng.choice([0, 3000]), pushes, span, rng.choice([0, 0, 1]))
+    period = rng.choice([6, 11, 25, 40])
+    span = period * rng.randint(4, 9) + rng.randint(0, 5)
+    pushes = []
+    for _ in range(rng.randint(1, 5)):
+        code = rng.choice([13, 13, 13, 13, 16, 18, 20, 11, 15])
+        pushes.append((code, rng.randint(1, 12), 1, 0, 0) if rng.random() < 0.8
+                      else (code, rng.randint(1, 12), 1, rng.choice([13, 14, 20]), rng.randint(1, 6)))
+    return heartbeat_case(False, period, rng.choice([0, 0, 2, period]), pushes, span, rng.choice([0, 0, 1, 2]),
+                          rng.random() < 0.7)
+
+
 def _gen_lag_end(rng, tier):
     """The wall clock passes end while the graph still has work at exact logical times; steps of 1 and more."""
     v0 = 3000
@@ -337,7 +374,9 @@ def _gen(rng, tier, prop):
         return _gen_drain_guard(rng, tier)
     if r < 0.86:
         return _gen_stop_in_start(rng, tier)
-    if r < 0.875:
+    if r < 0.90:
+        return _gen_heartbeat(rng, tier)
+    if r < 0.91:
         return nowake_case(rng.choice([1, 2]))
     return _gen_free(rng, tier)
 
@@ -365,6 +404,11 @@ def enumerate_cases(prop):
                 if v == 'other':
                     out.append(stop_in_start_case(v, n, who, 1))
                     out.append(stop_in_start_case(v, n, who, 0, 1))
+    for period in (6, 25):
+        for occ in range(1, 9):
+            for code in (13, 16, 20):
+                out.append(heartbeat_case(False, period, 0, [(code, occ, 1, 0, 0)], period * 5 + 3))
+            out.append(heartbeat_case(False, period, 2, [(13, occ, 1, 0, 0), (13, occ + 2, 1, 0, 0)], period * 6, 1))
     for m in (1022, 1023, 1024, 1025, 1026, 1100):
         for k in (2, 5):
             out.append(drain_guard_case(m, k, True))
@@ -469,8 +513,8 @@ def nontrivial(case, out):
 def _sched_rule(fails, started, now, kind, arg, eff, w_lo, w_hi):
     """NodeScheduler::schedule as C17 states it: a logical request for the past/present is ignored, a wall-clock
     alarm is never dropped: already due -> next evaluatable cycle max(now+1, wall) (during start: max(now, wall))."""
-    if kind in (1, 4):
-        when = now + arg if kind == 1 else arg
+    if kind in (1, 4, 8):
+        when = arg if kind == 4 else now + arg
         ok = (when > now) if started else (when >= now)
         exp = when if ok else 0
         if eff != exp:
@@ -631,6 +675,11 @@ def _oracle_hook(d, out):
                 fails.append(("push_missed", "a push was pending when the cycle at %d began but push sources were not evaluated" % cur))
             pend = set(p for p in pend if p > cur)
             prev = cur
+        elif k == 23:
+            exp = min(pend) if pend else -1
+            if l[1] != exp:
+                fails.append(("next_scheduled_time_wrong", "after the cycle at %s graph.next_scheduled_time() is %d but the "
+                              "earliest pending wake-up is %d" % (cur, l[1], exp)))
         elif k == 21:
             exited = True
             loop_tested = True
@@ -730,6 +779,11 @@ def _oracle_free(d, out):
             pend = set(p for p in pend if p > cur)
             prev = cur
             wlast = l[1]
+        elif k == 23:
+            exp = min(pend) if pend else -1
+            if l[1] != exp:
+                fails.append(("next_scheduled_time_wrong", "after the cycle at %s graph.next_scheduled_time() is %d but the "
+                              "earliest pending wake-up is %d" % (cur, l[1], exp)))
         elif k == 36:
             stopinit = stopinit or l[1] == 2
         elif k == 35:
@@ -771,7 +825,7 @@ PROP_KINDS = {"C17": {
     "sched_rule", "notify_before_flag", "late_wakeup", "no_exit", "harness_abort", "trace_shape",
     # candidate findings (see docs/notes-rtloop.md); listed in known_findings.json
     "scheduled_cycle_before_wall", "stop_before_run_lost",
-    "stop_during_start_lost"}}
+    "stop_during_start_lost", "next_scheduled_time_wrong"}}
 
 
 def shrink(case):
